@@ -871,11 +871,86 @@ def add_plane_checks(g):
     g.lines[:] = out
 
 
+def widen_matrix(g, n):
+    """an auto-sized 64-bit index holding negative and small values is widened through EVERY operation that can widen
+    (SetValue, SetBigValue, SetMany, SetBigMany, ParOr with a wider participant, Add, Increment carry); every stored value
+    must survive (sign extension)"""
+    r = g.r
+    for _ in range(n):
+        for how in ("bset", "bsetbig", "bsetmany", "bsetmanybig", "bparor", "badd", "binc"):
+            s = g.fresh("s")
+            g.emit("bnew %s 64" % s)
+            small = r.choice([[-5, -1, 7], [-1], [-3, 2], [-128, 127, 0], [3, 1]])
+            if how in ("badd", "binc"):
+                small = [v for v in small if v >= 0] + [-2]          # Add/Increment touch non-negative columns only
+            for i, v in enumerate(small):
+                g.emit("bset %s %d %d" % (s, i + 1, v))
+            big = r.choice([70000, 1 << 20, (1 << 40) + 5, (1 << 62)])
+            if how in ("bset", "bsetbig"):
+                g.emit("%s %s %d %d" % (how, s, 100, big if r.random() < 0.6 else -big))
+            elif how in ("bsetmany", "bsetmanybig"):
+                f = g.fresh("f")
+                g.emit("fs64 %s %d %d %d" % (f, 100, 101, 4294967296 + 7))
+                g.emit("%s %s %s %d" % (how, s, f, big if r.random() < 0.6 else -big))
+            elif how == "bparor":
+                t = g.fresh("s")
+                g.emit("bnew %s 64" % t)
+                g.emit("bset %s %d %d" % (t, 200, big if r.random() < 0.6 else -big))
+                g.emit("bparor %s %d %s" % (s, r.choice([0, 1, 2]), t))
+            elif how == "badd":
+                t = g.fresh("s")
+                g.emit("bnew %s 64" % t)
+                nn = [i + 1 for i, v in enumerate(small) if v >= 0]
+                g.emit("bset %s %d %d" % (t, nn[0] if nn else 300, big))
+                g.emit("badd %s %s" % (s, t))
+            else:
+                # carry out of the top value plane: 2^k - 1 incremented
+                k = r.choice([3, 7, 16])
+                g.emit("bset %s %d %d" % (s, 50, (1 << k) - 1))
+                f = g.fresh("f")
+                g.emit("fs64 %s 50" % f)
+                g.emit("bdump %s" % s)
+                g.emit("binc %s %s" % (s, f))
+            g.emit("bdump %s" % s)
+            g.emit("bchk %s" % s)
+            for i in range(len(small)):
+                g.emit("bget %s %d" % (s, i + 1))
+            g.count("widen:" + how)
+
+
+def full_width_batch_equal(g, n):
+    """BatchEqual with a query covering EVERY value of the index's width (the dense-range collapse of the trie / cube paths),
+    on both implementations; the returned bitmap is then modified and the index re-examined (results must be independent)"""
+    r = g.r
+    for _ in range(n):
+        for w in ("32", "64"):
+            bc = r.choice([1, 2, 3])
+            s = g.fresh("s")
+            g.emit("bnew %s %s" % (s, w))
+            top = (1 << bc) - 1
+            cols = list(range(1, 2 * (top + 1) + 1))
+            for i, c in enumerate(cols):
+                g.emit("bset %s %d %d" % (s, c, top if i == 0 else r.randrange(0, top + 1)))
+            res = g.fresh("r")
+            g.emit("beq %s %s %d %s" % (res, s, r.choice([0, 1, 2]), " ".join(str(v) for v in range(0, top + 1))))
+            fam = "" if w == "32" else "64"
+            g.emit("%s %s %d" % ("rem" + fam, res, cols[0]))
+            g.emit("%s %s %d" % ("add" + fam, res, 999))
+            g.emit("bdump %s" % s)
+            g.emit("bchk %s" % s)
+            res2 = g.fresh("r")
+            g.emit("beq %s %s %d %s" % (res2, s, 0, " ".join(str(v) for v in range(0, top + 1))))
+            g.emit("bcmp %s %s 0 GE 0" % (g.fresh("r"), s))
+            g.emit("bsum %s -" % s)
+            g.count("beq:fullwidth" + w)
+
+
 @suite("bsi")
 def _bsi(g, scale):
     b = BG(g, env_avoid())
     for _ in range(int(40 * scale)):
         b.episode_updates(g.r.choice([8, 15, 25]))
+    widen_matrix(g, max(1, int(2 * scale)))
     add_plane_checks(g)
 
 
@@ -884,6 +959,7 @@ def _bsiq(g, scale):
     b = BG(g, env_avoid())
     for _ in range(int(30 * scale)):
         b.episode_queries(g.r.choice([15, 30, 45]))
+    full_width_batch_equal(g, max(1, int(3 * scale)))
     add_plane_checks(g)
 
 
